@@ -21,6 +21,7 @@ theorem inv_step (cfg : Cfg) (s : St) (op : Op) (h : inv cfg s = true) :
     | setCache => exact key _ rfl (by have := setters_inv cfg s .setCache (Or.inr rfl) h; exact ⟨this.1, this.2.1⟩)
     | setTicket a => exact key _ rfl (by have := setters_inv cfg s (.setTicket a) (Or.inl rfl) h; exact ⟨this.1, this.2.1⟩)
     | setPsk a => exact key _ rfl (by have := setters_inv cfg s (.setPsk a) (Or.inl rfl) h; exact ⟨this.1, this.2.1⟩)
+    | edit => exact key (s, none) (by simp [stepR, hd, okR]) ⟨h, rfl⟩
     | buildNoSession =>
       refine key (buildHandshakeState cfg false .none s) (by simp [stepR, hd]) ?_
       cases hg : cfg.golang with
@@ -104,6 +105,7 @@ theorem locked_step (cfg : Cfg) (s : St) (op : Op) (h : inv cfg s = true) (hl : 
     | setCache => simpa [step] using setters_locked cfg s .setCache (Or.inr rfl) hl
     | setTicket a => simpa [step] using setters_locked cfg s (.setTicket a) (Or.inl rfl) hl
     | setPsk a => simpa [step] using setters_locked cfg s (.setPsk a) (Or.inl rfl) hl
+    | edit => simp [step, stepR, hd, okR]
     | buildNoSession => simpa [step, stepR, hd] using (built false .none).1
     | build lr => simpa [step, stepR, hd] using (built true lr).1
     | handshake lr =>
